@@ -1,16 +1,22 @@
 """A small translator from straight-line Rust integer functions to Lean 4 definitions over `Nat`.
 
 It reads the body of a named method out of the Rust source, parses it with a recursive-descent parser for
-the fragment these functions are written in (let-chains, `if … else …`, tuples, field access, method-call
-chains, integer literals, line comments) and prints a Lean definition. `usize` is `Nat`; the methods that
-depend on the width are translated to the helper definitions printed by `PRELUDE` (`satSub`, `satAdd`,
-`checkedAddExpect`), so the width is visible in the theorems that use the result. Anything outside the
-fragment raises `Untranslatable`: the caller reports that the tie by regeneration no longer applies to that
-function (a harmless rewrite can cause that too; the check then falls back to the correspondence).
+the fragment these functions are written in (let-chains incl. destructuring of the receiver, `if … else …`,
+`if … { …; return e; }` followed by the rest, `!`, comparisons, tuples, field access, method-call chains,
+integer literals, line comments) and prints a Lean definition. `usize` is `Nat`; the methods that depend on
+the width are translated to the helper definitions printed by `PRELUDE` (`satSub`, `satAdd`,
+`checkedAddExpect`, `checkedMulExpect`), so the width is visible in the theorems that use the result.
+Anything outside the fragment raises `Untranslatable`: the caller reports that the tie by translation no
+longer applies to that function (a harmless rewrite can cause that too; the check then falls back to the
+correspondence).
 
-Receivers and opaque calls are mapped to parameters by the `opaque` table the caller passes: e.g.
-`path.is_absolute()` -> `pathIsAbsolute : Bool`. Calls of other translated methods on `self` are mapped by
-`calls`: e.g. `self.max()` -> `depthMinMaxMax self_min self_extent`.
+Values of no numeric content (paths, references) are OPAQUE: the parser tracks them symbolically by a
+canonical spelling in which the function's parameters are named by position (`P0`, `P1`, ..; the receiver is
+`self`) and local names are replaced by what they were bound to, so renaming a parameter or a local, or
+introducing a `let`, does not change the spelling. The caller's `opaque` table maps canonical spellings of
+the numeric or boolean OBSERVATIONS of such values to Lean parameters, e.g.
+`P0.as_ref().is_absolute()` -> `pathIsAbsolute : Bool`. Calls of other translated methods on `self` are
+mapped by `calls`: e.g. `self.max()` -> `depthMinMaxMax self_min self_extent`.
 """
 import re
 
@@ -31,12 +37,9 @@ def checkedAddExpect (a b : Nat) : Nat := a + b
 def checkedMulExpect (a b : Nat) : Nat := a * b"""
 
 
-def method_body(src, impl_pat, fn_name):
-    """text between the braces of `fn fn_name` inside the first `impl` block whose header matches impl_pat"""
-    m = re.search(impl_pat, src)
-    if not m:
-        raise Untranslatable("impl block %r not found" % impl_pat)
-    i = src.index("{", m.end() - 1) if src[m.end() - 1] != "{" else m.end() - 1
+def _block_after(src, start):
+    """inner text of the brace block that opens at or after `start`"""
+    i = src.index("{", start)
     depth, j = 0, i
     while True:
         c = src[j]
@@ -47,22 +50,19 @@ def method_body(src, impl_pat, fn_name):
             if depth == 0:
                 break
         j += 1
-    block = src[i:j + 1]
+    return src[i + 1:j]
+
+
+def method_body(src, impl_pat, fn_name):
+    """(body text, parameter list text) of `fn fn_name` inside the first `impl` block whose header matches impl_pat"""
+    m = re.search(impl_pat, src)
+    if not m:
+        raise Untranslatable("impl block %r not found" % impl_pat)
+    block = _block_after(src, m.end() - 1 if src[m.end() - 1] == "{" else m.end())
     m2 = re.search(r"fn %s\s*(<[^>]*>)?\s*\(([^)]*)\)\s*(->\s*[^{]+)?\{" % re.escape(fn_name), block)
     if not m2:
         raise Untranslatable("fn %s not found in %r" % (fn_name, impl_pat))
-    k = m2.end() - 1
-    depth, j = 0, k
-    while True:
-        c = block[j]
-        if c == "{":
-            depth += 1
-        elif c == "}":
-            depth -= 1
-            if depth == 0:
-                break
-        j += 1
-    return block[k + 1:j], m2.group(2)
+    return _block_after(block, m2.end() - 1), m2.group(2)
 
 
 TOKEN = re.compile(r"\s*(//[^\n]*|[A-Za-z_][A-Za-z0-9_]*|\d+|\"(?:[^\"\\]|\\.)*\"|==|!=|<=|>=|&&|\|\||[-+*(){}\[\].,;=<>!&:])")
@@ -84,12 +84,29 @@ def tokenize(text):
     return out
 
 
+class Opaque:
+    """a value of no numeric content, known by its canonical spelling"""
+
+    def __init__(self, canon):
+        self.canon = canon
+
+
+class Tup:
+    def __init__(self, items):
+        self.items = items
+
+
+NUMERIC_METHODS = ("get", "into", "saturating_sub", "saturating_add", "checked_add", "checked_mul")
+
+
 class Parser:
-    def __init__(self, toks, opaque, calls, fields, rename=None):
+    def __init__(self, toks, opaque, calls, fields, rust_params, numeric_names, project):
         self.t, self.i = toks, 0
         self.opaque, self.calls, self.fields = opaque, calls, fields
-        self.rename = rename or {}   # Rust parameter name -> Lean parameter name (positional: a renamed parameter is harmless)
-        self.used = []           # parameters in order of first use
+        self.rust_params = rust_params            # names in the Rust signature, receiver excluded, in order
+        self.numeric_names = numeric_names        # Lean names of the numeric ones among them, in order
+        self.project = project
+        self.used = []
 
     def peek(self, k=0):
         return self.t[self.i + k] if self.i + k < len(self.t) else None
@@ -103,74 +120,173 @@ class Parser:
 
     def use(self, name, typ):
         if typ is None:
-            return name              # an ignored (non-numeric) value, e.g. the path component of a returned pair
+            return name
         if (name, typ) not in self.used:
             self.used.append((name, typ))
         return name
 
-    # block := (let ident = expr ;)* expr
+    def numeric_param(self, idx):
+        """the Lean parameter of the idx-th Rust parameter, matched by POSITION among the parameters that are not opaque"""
+        opaque_params = {int(k.split(".")[0][1:]) for k in self.opaque if re.match(r"P\d+(\.|$)", k)}
+        numeric_positions = [i for i in range(len(self.rust_params)) if i not in opaque_params]
+        if idx not in numeric_positions or numeric_positions.index(idx) >= len(self.numeric_names):
+            raise Untranslatable("parameter %r is not a declared numeric input" % self.rust_params[idx])
+        return self.use(self.numeric_names[numeric_positions.index(idx)], "Nat")
+
+    def term(self, v, what="value"):
+        """a Lean term for a value that must be numeric / boolean"""
+        if isinstance(v, Tup):
+            if self.project is not None:
+                return self.term(v.items[self.project], "result component")
+            return "(" + ", ".join(self.term(x, "result component") for x in v.items) + ")"
+        if isinstance(v, Opaque):
+            if v.canon in self.opaque and self.opaque[v.canon][1] is not None:
+                pname, typ = self.opaque[v.canon]
+                return self.use(pname, typ)
+            m = re.match(r"P(\d+)$", v.canon)
+            if m:
+                return self.numeric_param(int(m.group(1)))
+            if v.canon == "self" and "" in self.fields:
+                return self.use(self.fields[""], "Nat")
+            raise Untranslatable("%s of no numeric content: %s" % (what, v.canon))
+        return v
+
+    @staticmethod
+    def canon_of(v):
+        if isinstance(v, Opaque):
+            return v.canon
+        if isinstance(v, Tup):
+            return "(" + ",".join(Parser.canon_of(x) for x in v.items) + ")"
+        return v
+
+    # ---- statements: (let …;)* ( if c { …; return e; } )* ( expr | return expr; ); returns (lean term, ended in return?)
     def block(self, env):
         env = dict(env)
         lets = []
-        while self.peek() == "let":
-            self.eat("let")
-            if self.peek() == "mut":
-                raise Untranslatable("mutable binding")
-            name = self.eat()
-            if not re.match(r"[a-z_][a-z0-9_]*$", name):
-                raise Untranslatable("pattern binding %r" % name)
-            self.eat("=")
-            # a binding whose right-hand side is a declared opaque value of no numeric content (a path, a reference)
-            # introduces no Lean binding: the name keeps denoting that opaque value
-            j = self.i
-            while j < len(self.t) and self.t[j] != ";":
-                j += 1
-            rhs = self.source_of(self.i, j)
-            if self.opaque.get(rhs) == "DROP":
-                self.i = j
-                self.eat(";")
-                continue
-            e = self.expr(env)
-            self.eat(";")
-            v = name + "_" + str(sum(1 for n, _ in lets if n.split("_")[0] == name) + 1)
-            lets.append((v, e))
-            env[name] = v
-        e = self.expr(env)
-        for v, d in reversed(lets):
-            e = "(let %s := %s; %s)" % (v, d, e)
-        return e
 
+        def wrap(e):
+            for var, d in reversed(lets):
+                e = "(let %s := %s; %s)" % (var, d, e)
+            return e
+
+        while True:
+            t = self.peek()
+            if t == "let":
+                self.eat("let")
+                if self.peek() == "mut":
+                    raise Untranslatable("mutable binding")
+                name = self.eat()
+                if re.match(r"[A-Z]", name) and self.peek() in ("(", "{"):
+                    self.destructure(env)
+                    continue
+                if not re.match(r"[a-z_][a-z0-9_]*$", name):
+                    raise Untranslatable("pattern binding %r" % name)
+                self.eat("=")
+                v = self.expr(env)
+                self.eat(";")
+                if isinstance(v, Opaque) and not (v.canon in self.opaque and self.opaque[v.canon][1] is not None) and not re.match(r"P\d+$", v.canon):
+                    env[name] = v                  # a path, a reference: the name keeps denoting that opaque value
+                    continue
+                if isinstance(v, Opaque) and re.match(r"P\d+$", v.canon) and any(k.startswith(v.canon + ".") for k in self.opaque):
+                    env[name] = v                  # an alias of an opaque parameter
+                    continue
+                d = self.term(v)
+                var = "%s_%d" % (name, sum(1 for n, _ in lets if n.rsplit("_", 1)[0] == name) + 1)
+                lets.append((var, d))
+                env[name] = var
+                continue
+            if t == "return":
+                self.eat("return")
+                v = self.expr(env)
+                if self.peek() == ";":
+                    self.eat(";")
+                return wrap(self.term(v, "result")), True
+            if t == "if":
+                self.eat("if")
+                c = self.cond(env)
+                self.eat("{")
+                a, a_ret = self.block(env)
+                self.eat("}")
+                if self.peek() == "else":
+                    self.eat("else")
+                    self.eat("{")
+                    b, b_ret = self.block(env)
+                    self.eat("}")
+                    v = "(if %s then %s else %s)" % (c, a, b)
+                    if self.peek() == ".":
+                        v = self.method_tail(v, env)
+                    return wrap(self.term(v, "result")), a_ret and b_ret
+                if not a_ret:
+                    raise Untranslatable("`if` without `else` whose block does not return")
+                rest, r_ret = self.block(env)
+                return wrap("(if %s then %s else %s)" % (c, a, rest)), r_ret
+            v = self.expr(env)
+            return wrap(self.term(v, "result")), False
+
+    def destructure(self, env):
+        binds = []
+        if self.peek() == "(":
+            self.eat("(")
+            k = 0
+            while self.peek() != ")":
+                binds.append((self.eat(), str(k)))
+                k += 1
+                if self.peek() == ",":
+                    self.eat(",")
+            self.eat(")")
+        else:
+            self.eat("{")
+            while self.peek() != "}":
+                fld = self.eat()
+                var = fld
+                if self.peek() == ":":
+                    self.eat(":")
+                    var = self.eat()
+                binds.append((var, fld))
+                if self.peek() == ",":
+                    self.eat(",")
+            self.eat("}")
+        self.eat("=")
+        if self.peek() == "*":
+            self.eat("*")
+        if self.eat() != "self":
+            raise Untranslatable("destructuring of something other than the receiver")
+        self.eat(";")
+        for var, fld in binds:
+            if fld not in self.fields:
+                raise Untranslatable("field self.%s" % fld)
+            env[var] = self.use(self.fields[fld], "Nat")
+
+    # ---- expressions
     def expr(self, env):
         if self.peek() == "if":
             self.eat("if")
             c = self.cond(env)
             self.eat("{")
-            a = self.block(env)
+            a, _ = self.block(env)
             self.eat("}")
             self.eat("else")
             self.eat("{")
-            b = self.block(env)
+            b, _ = self.block(env)
             self.eat("}")
-            return "(if %s then %s else %s)" % (c, a, b)
+            return self.method_tail("(if %s then %s else %s)" % (c, a, b), env)
         return self.chain(env)
 
     def cond(self, env):
-        # a condition is an opaque boolean call chain, or a comparison of two chains
-        start = self.i
-        a = self.chain(env, boolean=True)
+        if self.peek() == "!":
+            self.eat("!")
+            return "(!%s)" % self.cond(env)
+        a = self.chain(env)
         op = self.peek()
         if op in ("==", "!=", "<=", ">=", "<", ">"):
             self.eat()
-            b = self.chain(env)
+            b = self.term(self.chain(env), "operand")
+            a = self.term(a, "operand")
             lean = {"==": "==", "!=": "!=", "<=": "≤", ">=": "≥", "<": "<", ">": ">"}[op]
             return "(%s %s %s)" % (a, lean, b) if op in ("==", "!=") else "decide (%s %s %s)" % (a, lean, b)
-        return a
+        return self.term(a, "condition")
 
-    def source_of(self, a, b):
-        return "".join(self.t[a:b])
-
-    def chain(self, env, boolean=False):
-        start = self.i
+    def chain(self, env):
         t = self.peek()
         if t == "(":
             self.eat("(")
@@ -181,22 +297,24 @@ class Parser:
                     break
                 items.append(self.expr(env))
             self.eat(")")
-            cur = items[0] if len(items) == 1 else "(" + ", ".join(items) + ")"
+            cur = items[0] if len(items) == 1 else Tup(items)
         elif t is not None and t.isdigit():
             cur = self.eat()
         elif t is not None and re.match(r"[A-Za-z_]", t):
-            cur = self.eat()
-            if cur in env:
-                cur = env[cur]
-            elif cur != "self":
-                if cur in self.opaque or any(k.startswith(cur + ".") for k in self.opaque):
-                    cur = "@" + cur      # an opaque receiver, resolved below
-                elif re.match(r"[a-z_][a-z0-9_]*$", cur):
-                    cur = self.use(self.rename.get(cur, cur), "Nat")   # a plain numeric parameter of the function
-                else:
-                    raise Untranslatable("identifier %r" % cur)
+            name = self.eat()
+            if name in env:
+                cur = env[name]
+            elif name == "self":
+                cur = Opaque("self")
+            elif name in self.rust_params:
+                cur = Opaque("P%d" % self.rust_params.index(name))
+            else:
+                raise Untranslatable("identifier %r" % name)
         else:
             raise Untranslatable("unexpected token %r" % t)
+        return self.method_tail(cur, env)
+
+    def method_tail(self, cur, env):
         while self.peek() == ".":
             self.eat(".")
             name = self.eat()
@@ -212,103 +330,64 @@ class Parser:
                     if self.peek() == ",":
                         self.eat(",")
                 self.eat(")")
-            src = self.source_of(start, self.i)
-            if src in self.opaque and self.opaque[src] != "DROP":
-                pname, typ = self.opaque[src]
-                cur = self.use(pname, typ)
-                continue
-            if cur == "self" and args is None:
-                if name not in self.fields:
-                    raise Untranslatable("field self.%s" % name)
-                cur = self.use(self.fields[name], "Nat")
-                continue
-            if cur == "self" and args == [] and name in self.calls:
-                fn, fl = self.calls[name]
-                cur = "(%s %s)" % (fn, " ".join(self.use(self.fields[f], "Nat") for f in fl))
-                continue
-            if cur == "self" and args is not None and "" in self.fields and not any(k.startswith(src) for k in self.opaque):
-                cur = self.use(self.fields[""], "Nat")     # `self` is the number itself (impl … for usize)
-            if cur.startswith("@") or cur == "self":
-                # part of an opaque prefix that is completed by a later segment
-                if any(k.startswith(src) and k != src for k in self.opaque):
-                    cur = "@" + src
+            if isinstance(cur, Tup):
+                raise Untranslatable("method on a tuple")
+            if isinstance(cur, Opaque):
+                if cur.canon == "self" and args is None:
+                    if name not in self.fields:
+                        raise Untranslatable("field self.%s" % name)
+                    cur = self.use(self.fields[name], "Nat")
                     continue
-                raise Untranslatable("call on %s: .%s" % (cur, name))
+                if cur.canon == "self" and args == [] and name in self.calls:
+                    fn, fl = self.calls[name]
+                    cur = "(%s %s)" % (fn, " ".join(self.use(self.fields[f], "Nat") for f in fl))
+                    continue
+                numeric_receiver = (cur.canon == "self" and "" in self.fields) or \
+                    (re.match(r"P\d+$", cur.canon) and not any(k.startswith(cur.canon + ".") for k in self.opaque))
+                if name in NUMERIC_METHODS and numeric_receiver:
+                    cur = self.term(cur)          # falls through to the numeric methods
+                else:
+                    rendered = "" if args is None else "(" + ",".join(self.canon_of(a) for a in args) + ")"
+                    cur = Opaque(cur.canon + "." + name + rendered)
+                    if cur.canon in self.opaque and self.opaque[cur.canon][1] is not None:
+                        pname, typ = self.opaque[cur.canon]
+                        cur = self.use(pname, typ)
+                    continue
             if name in ("get", "into") and args == []:
                 continue
-            if name == "saturating_sub" and len(args) == 1:
-                cur = "(satSub %s %s)" % (cur, args[0])
-            elif name == "saturating_add" and len(args) == 1:
-                cur = "(satAdd %s %s)" % (cur, args[0])
-            elif name == "checked_add" and len(args) == 1 and self.peek() == "." and self.peek(1) == "expect":
+            if name in ("saturating_sub", "saturating_add") and args is not None and len(args) == 1:
+                cur = "(%s %s %s)" % ("satSub" if name == "saturating_sub" else "satAdd", cur, self.term(args[0], "argument"))
+            elif name in ("checked_add", "checked_mul") and args is not None and len(args) == 1 and self.peek() == "." and self.peek(1) == "expect":
                 self.eat(".")
                 self.eat("expect")
                 self.eat("(")
                 self.eat()
                 self.eat(")")
-                cur = "(checkedAddExpect %s %s)" % (cur, args[0])
-            elif name == "checked_mul" and len(args) == 1 and self.peek() == "." and self.peek(1) == "expect":
-                self.eat(".")
-                self.eat("expect")
-                self.eat("(")
-                self.eat()
-                self.eat(")")
-                cur = "(checkedMulExpect %s %s)" % (cur, args[0])
+                cur = "(%s %s %s)" % ("checkedAddExpect" if name == "checked_add" else "checkedMulExpect", cur, self.term(args[0], "argument"))
             else:
                 raise Untranslatable("method .%s/%s" % (name, "-" if args is None else len(args)))
-        if cur.startswith("@"):
-            name = cur[1:]
-            if name in self.opaque:
-                pname, typ = self.opaque[name]
-                return self.use(pname, typ)
-            if re.match(r"[a-z_][a-z0-9_]*$", name):
-                return self.use(name, "Nat")      # a plain parameter of the function
-            raise Untranslatable("unresolved receiver %r" % name)
         return cur
 
 
 def translate(src, impl_pat, fn_name, lean_name, ret, opaque=None, calls=None, fields=None, project=None, params=None):
-    """-> Lean definition text. `project`: keep only that component of a final tuple. `params`: fixed parameter order."""
+    """-> Lean definition text.
+    `params`: the Lean parameters in order [(name, type)]: receiver fields, the numeric parameters of the Rust signature in
+    order, the observations of opaque values named in `opaque`. `project`: keep that component of a returned tuple (the
+    others are opaque)."""
     body, sig = method_body(src, impl_pat, fn_name)
     toks = tokenize(body)
-    # numeric parameters are matched by POSITION: the names in the Rust signature (without the receiver) are mapped onto the
-    # declared Lean parameters that are not receiver fields, in order
     rust_params = [x.split(":")[0].strip() for x in sig.split(",") if x.strip() and not re.match(r"\s*&?\s*(mut\s+)?self\s*$", x)]
-    rename = {}
-    if params is not None:
-        field_names = set((fields or {}).values())
-        lean_params = [n for n, t in params if n not in field_names and t == "Nat" and n not in [v[0] for v in (opaque or {}).values() if isinstance(v, tuple)]]
-        numeric_rust = [r0 for r0 in rust_params if not any(k == r0 or k.startswith(r0 + ".") for k in (opaque or {}))]
-        if len(numeric_rust) == len(lean_params):
-            rename = dict(zip(numeric_rust, lean_params))
-    p = Parser(toks, opaque or {}, calls or {}, fields or {}, rename)
-    e = p.block({})
+    field_names = list((fields or {}).values())
+    observed = [v[0] for v in (opaque or {}).values() if isinstance(v, tuple) and v[1] is not None]
+    numeric_names = [n for n, t in (params or []) if n not in field_names and n not in observed]
+    p = Parser(toks, opaque or {}, calls or {}, fields or {}, rust_params, numeric_names, project)
+    e, _ = p.block({})
     if p.peek() is not None:
         raise Untranslatable("trailing tokens after the body of %s: %r" % (fn_name, p.t[p.i:p.i + 5]))
-    if project is not None:
-        m = re.match(r"^((?:\(let [^;]*; )*)\((.*)\)(\)*)$", e, re.S)
-        if not m:
-            raise Untranslatable("%s does not end in a tuple" % fn_name)
-        parts, depth, cur = [], 0, ""
-        for ch in m.group(2):
-            if ch == "(":
-                depth += 1
-            elif ch == ")":
-                depth -= 1
-            if ch == "," and depth == 0:
-                parts.append(cur.strip())
-                cur = ""
-            else:
-                cur += ch
-        parts.append(cur.strip())
-        # the opaque components of the tuple are not Lean terms: keep the projected one only
-        e = m.group(1) + parts[project] + m.group(3)
     used = p.used
     if params is not None:
-        names = dict(used)
         extra = [n for n, _ in used if n not in [q for q, _ in params]]
         if extra:
             raise Untranslatable("%s uses values outside its declared inputs: %s" % (fn_name, extra))
         used = params
-    sig = " ".join("(%s : %s)" % (n, t) for n, t in used)
-    return "def %s %s : %s :=\n  %s" % (lean_name, sig, ret, e)
+    return "def %s %s : %s :=\n  %s" % (lean_name, " ".join("(%s : %s)" % (n, t) for n, t in used), ret, e)
